@@ -375,14 +375,29 @@ Record wcfg := {
   w_wt : wtype;
   w_purpose : Z;
   w_tpl : list string;             (* key_path column *)
-  w_root_depth : Z;                (* depth of the main key *)
-  w_root_master : bool;            (* main key is a private key of depth 0 *)
-  w_account : Z                    (* default account = account of the main key *)
+  w_root_depth : Z;                (* depth of the main key (main_key.depth) *)
+  w_root_private : bool;           (* the main key holds a private key (main_key.is_private) *)
+  w_account : Z;                   (* default account = account of the main key *)
+  (* which library the book mirrors (decided per run by asking the implementation, see harness/props/c09.py):
+     fixes/C09-5 - keys_for_path of a wallet whose main key is an account-level key refuses other networks and other
+     accounts; fixes/C09-6 - the account_id column of a created row is the account named in the path *)
+  w_guard_reach : bool;
+  w_acct_from_path : bool
 }.
+
+(* the main key is a private master key of depth 0: the only key above every purpose / coin type / account branch *)
+Definition w_root_master (c : wcfg) : bool := w_root_private c && (w_root_depth c =? 0).
 
 Record wstate := { ws_cfg : wcfg; ws_keys : list keyrec }.
 
 Definition set_keys (w : wstate) (ks : list keyrec) : wstate := {| ws_cfg := ws_cfg w; ws_keys := ks |}.
+
+Definition set_lib_fixes (w : wstate) (guard_reach acct_from_path : bool) : wstate :=
+  let c := ws_cfg w in
+  {| ws_cfg := {| w_net := w_net c; w_wt := w_wt c; w_purpose := w_purpose c; w_tpl := w_tpl c;
+                  w_root_depth := w_root_depth c; w_root_private := w_root_private c; w_account := w_account c;
+                  w_guard_reach := guard_reach; w_acct_from_path := acct_from_path |};
+     ws_keys := ws_keys w |}.
 
 Fixpoint index_of (s : string) (l : list string) : option nat :=
   match l with
@@ -494,8 +509,16 @@ Definition lib_keys_for_path (w : wstate) (upath : list pelem) (full : bool) (le
       let net' := fst (acct_defaults w net acct) in
       let acct' := snd (acct_defaults w net acct) in
       let wt' := opt_default (w_wt c) wt in
-      if negb (w_root_master c) && negb (wtype_eqb wt' (w_wt c)) then (w, None)
-      else if negb (w_root_master c) && full then (w, None)            (* not modelled, see header *)
+      (* "This wallet has no private key, cannot use multiple witness types": the guard as the code has it, a
+         public main key OR a main key below depth 0 *)
+      if (negb (w_root_private c) || negb (w_root_depth c =? 0)) && negb (wtype_eqb wt' (w_wt c)) then (w, None)
+      (* fixes/C09-5: "Cannot create new keys for network / account ..., no private masterkey found" - the main key
+         is an account-level key and the request names another network, or (no account level in the key path)
+         another account than the main key's *)
+      else if w_guard_reach c && negb (w_root_depth c =? 0)
+              && (negb (String.eqb net' (w_net c))
+                  || (negb (is_some (index_of "account'" (w_tpl c))) && negb (acct' =? w_account c)))
+      then (w, None)
       else
         match (if wtype_eqb wt' (w_wt c) then Some (w_purpose c)
                else match lib_key_structure wt' false with Some r => Some (snd (fst r)) | None => None end),
@@ -510,10 +533,11 @@ Definition lib_keys_for_path (w : wstate) (upath : list pelem) (full : bool) (le
                 | None => (w, None)
                 | Some top =>
                     let acct_col :=
-                      if acct' =? 0 then
+                      if w_acct_from_path c || (acct' =? 0) then
                         match index_of "account'" (w_tpl c) with
-                        | Some (S pos) => if (pos <? length fullpath)%nat then fst (nth pos fullpath (0, false)) else 0
-                        | _ => 0
+                        | Some (S pos) => if (pos <? length fullpath)%nat then fst (nth pos fullpath (0, false))
+                                          else acct'
+                        | _ => acct'
                         end
                       else acct' in
                     let chg_col :=
@@ -528,6 +552,10 @@ Definition lib_keys_for_path (w : wstate) (upath : list pelem) (full : bool) (le
                     let cl := {| c_net := net'; c_wt := wt'; c_purpose := purpose; c_account := acct_col;
                                  c_change := chg_col |} in
                     let found := path_eqb (k_path top) fullpath in
+                    (* "Cannot create new keys for network ..., no private masterkey found": the key at that very
+                       position belongs to another network *)
+                    if found && negb (String.eqb (k_net top) net') then (w, None)
+                    else
                     match extra, found with
                     | O, true => (w, Some [top])
                     | _, _ =>
@@ -617,7 +645,8 @@ Definition level_offset_pm (c : wcfg) : option Z := Some (Z.of_nat (pm_len c) - 
 Definition lib_new_account (w : wstate) (acct : option Z) (wt : option wtype) (net : option string)
   : wstate * option (list keyrec) :=
   let c := ws_cfg w in
-  if negb (w_root_master c) then (w, None)
+  (* "A master private key of depth 0 is needed to create new accounts" *)
+  if negb (w_root_depth c =? 0) || negb (w_root_private c) then (w, None)
   else if negb (is_some (index_of "account'" (w_tpl c))) then (w, None)
   else
     let net' := opt_default (w_net c) net in
@@ -743,6 +772,17 @@ Definition lib_addresslist_rows (w : wstate) (acct chg depth : option Z) (used :
                   | Some d => if d =? -1 then None else Some d
                   end) used None net.
 
+(* Wallet.account(account_id): the row of the wallet's own purpose and network at depth 3 with that account number;
+   an error when the key path has no account level or there is not exactly one such row; never a new key *)
+Definition lib_account (w : wstate) (a : Z) : wstate * option (list keyrec) :=
+  let c := ws_cfg w in
+  if negb (is_some (index_of "account'" (w_tpl c))) then (w, None)
+  else match filter (fun k => (k_purpose k =? w_purpose c) && String.eqb (k_net k) (w_net c) && (k_account k =? a)
+                              && (row_depth c k =? 3)) (ws_keys w) with
+       | [k] => (w, Some [k])
+       | _ => (w, None)
+       end.
+
 Inductive op :=
 | ONewKeys (acct : option Z) (change : Z) (wt : option wtype) (net : option string) (n : nat)
 | OGetKeys (acct : option Z) (change : Z) (wt : option wtype) (net : option string) (n : nat)
@@ -752,7 +792,8 @@ Inductive op :=
                (net : option string) (n : nat)
 | OMarkUsed (j : nat)
 | OReopen
-| OScan (gap : nat) (acct : option Z) (change : option Z) (net : option string).
+| OScan (gap : nat) (acct : option Z) (change : option Z) (net : option string)
+| OAccount (a : Z).
 
 Definition step (w : wstate) (o : op) : wstate * option (list keyrec) :=
   match o with
@@ -764,6 +805,7 @@ Definition step (w : wstate) (o : op) : wstate * option (list keyrec) :=
   | OMarkUsed j => lib_mark_used w j
   | OReopen => (w, Some [])              (* every field of the state is persisted; see the correspondence *)
   | OScan gap a ch net => lib_scan w gap a ch net
+  | OAccount a => lib_account w a
   end.
 
 Definition run (w : wstate) (ops : list op) : wstate := fold_left (fun s o => fst (step s o)) ops w.
@@ -773,10 +815,10 @@ Definition implicit_op (o : op) : bool :=
   match o with OKeysForPath _ _ _ _ _ _ _ _ => false | _ => true end.
 
 (* Wallet.create(name, keys=<key>, network, witness_type, account_id) for a bip32 single-signature wallet.
-   [root_depth] / [root_master] / [root_index] describe the supplied key (depth, private master?, child number). *)
+   [root_depth] / [root_private] / [root_index] describe the supplied key (depth, holds a private key?, child number). *)
 Definition dogecoin_like (net : string) : bool := String.eqb net "dogecoin" || String.eqb net "dogecoin_testnet".
 
-Definition lib_wallet_create (net : string) (wt : wtype) (acct : Z) (root : X) (root_depth : Z) (root_master : bool)
+Definition lib_wallet_create (net : string) (wt : wtype) (acct : Z) (root : X) (root_depth : Z) (root_private : bool)
            (root_index : Z) : option wstate :=
   if dogecoin_like net && negb (wtype_eqb wt Legacy) then None
   else
@@ -791,7 +833,8 @@ Definition lib_wallet_create (net : string) (wt : wtype) (acct : Z) (root : X) (
         | None => None
         | Some t =>
             let c := {| w_net := net; w_wt := wt; w_purpose := purpose; w_tpl := t; w_root_depth := root_depth;
-                        w_root_master := root_master; w_account := acct |} in
+                        w_root_private := root_private; w_account := acct; w_guard_reach := false;
+                        w_acct_from_path := false |} in
             let mk := {| k_id := 1; k_parent := 0; k_path := []; k_net := net; k_wt := wt; k_purpose := purpose;
                          k_account := acct; k_change := Some 0; k_index := root_index mod H31; k_used := false;
                          k_x := root |} in
@@ -873,7 +916,7 @@ Definition wallet_from_account_key (net : string) (wt : wtype) (acct : Z) (seed 
   | Some m, Some coin =>
       match spec_derive m (account_path wt coin acct) with
       | None => None
-      | Some a => lib_wallet_create xkey lib_subkey net wt acct (if private then a else spec_neuter a) 3 false
+      | Some a => lib_wallet_create xkey lib_subkey net wt acct (if private then a else spec_neuter a) 3 private
                                     (x_child a)
       end
   | _, _ => None
